@@ -45,6 +45,7 @@ structure Mon where
   tx : List (String × Bytes × Nat × Nat) := []      -- (server, packet, time of last transmission, transmissions so far)
   now : Nat := 0
   udp : Bool := false
+  fwdAt : List (Nat × Bytes × Nat) := []             -- (client, request packet, time) of requests that were forwarded
   srvPrev : List (String × Nat × Nat) := []          -- per server: (unanswered count, status-server mode) as last seen
   queue : List (Nat × QEnt) := []    -- mirror of the reply queues, oldest first
   rxKnown : List (Bytes × Bytes × Bool) := []   -- reference answers of the C library's regexec (rxeval ops)
@@ -323,8 +324,27 @@ def monOp1 (m : Mon) (op : String) (args : List String) (impl : List String) (tr
         let othersGrew := (List.range ql.length).any fun j => j ≠ k && (ql.getD j 0) > (m.qlen.getD j 0)
         let acceptable := requestAcceptable H cc.secret pkt
         let ret0 := toks.contains "ret=0"
+        -- C11: with every usable identifier of every server taken, a new request is dropped and forgotten
+        let tablesFull := !m.cfg.srvs.isEmpty && m.cfg.srvs.all fun (name, _, _) =>
+          let occ := (((m.slots.find? (·.1 = name)).map (·.2)).getD []).length
+          let ss : Nat := ((m.srvPrev.find? (·.1 = name)).map (·.2.2)).getD 0
+          occ ≥ 256 - (if ss ≠ 0 then 1 else 0) && occ ≥ 255
+        let cachedIds : List Nat := (sections out).flatMap fun sec =>
+          if sec.startsWith s!"C{k} " then
+            ((sec.splitOn " ").filter (·.startsWith "cache=")).flatMap fun t =>
+              ((t.drop 6).toString.splitOn ",").filterMap fun e => (e.splitOn ":").head?.bind (·.toNat?)
+          else []
+        let seenIdBefore := m.recv.any fun (j, p) => j = k && idOf p == idOf pkt
+        -- C10: the same packet again, DuplicateInterval seconds or more after it was forwarded, is a new request
+        let staleRepeat := (m.fwdAt.find? fun (j, p, _) => j = k && p == pkt).any fun (_, _, t) => decide (m.now ≥ t + cc.dup)
+        let newerSameId := m.recv.head?.any fun (j, p) => j = k && idOf p == idOf pkt && p != pkt
         let verdict : String :=
-          if (!fwdToks.isEmpty || qgrew) && !acceptable then "bad C05:unacceptable-request-forwarded-or-answered"
+          if staleRepeat && !newerSameId && !tablesFull && fwdToks.isEmpty && cc.dup ≠ 0 &&
+             !(m.recv.any fun (j, p) => j = k && idOf p == idOf pkt && p != pkt) then
+            "bad C10:request-repeated-at-or-after-DuplicateInterval-not-treated-as-new"
+          else if tablesFull && fwdToks.isEmpty && !qgrew && acceptable && !seenIdBefore && cachedIds.contains (idOf pkt).toNat then
+            "bad C11:request-kept-in-the-duplicate-cache-though-no-identifier-was-free"
+          else if (!fwdToks.isEmpty || qgrew) && !acceptable then "bad C05:unacceptable-request-forwarded-or-answered"
           else if othersGrew then "bad C02:reply-queued-for-another-client"
           else if fwdToks.length > 1 then "bad C01:queued-more-than-once"
           else if ret0 && (wellFormedLoose pkt && authChecksPass H pkt (some cc.secret) none && !expectMacInvalid H pkt (some cc.secret) none) then
@@ -352,7 +372,8 @@ def monOp1 (m : Mon) (op : String) (args : List String) (impl : List String) (tr
                  else if ttlSkips m.cfg.opts.ttlType [cc.rwIn, sc.rwOut] then "ok"
                  else ttlVerdict m.cfg.opts.ttlType (World.effAddTtl m.cfg.opts sc.addttl) pkt b "request")
             | [] => "ok"
-        let m := { m with recv := (k, pkt) :: m.recv,
+        let m := { m with fwdAt := (if fwdToks.isEmpty then m.fwdAt else (k, pkt, m.now) :: m.fwdAt.filter fun (j, p, _) => !(j = k && p == pkt)),
+                          recv := (k, pkt) :: m.recv,
                           queue := m.queue ++ List.replicate ((ql.getD k 0) - (m.qlen.getD k 0)) (k, QEnt.loc pkt (m.recv.any fun (j, p) => j = k && p == pkt) trToks),
                           fwds := (fwdToks.map fun (s, sl, b) => { srv := s, slot := sl, pkt := b, client := k, rq := pkt }) ++ m.fwds }
         (resync m out, verdict)
